@@ -56,10 +56,11 @@ pub fn setup() -> Setup {
 pub fn run(tier: Tier) -> i32 {
     let started = std::time::Instant::now();
     let (h, d, k, a, corpus, secs) = match tier {
-        Tier::Quick => (3, 3, 2, 16, 3000, 45),
+        Tier::Quick => (3, 3, 2, 11, 3000, 45),
         Tier::Thorough => (5, 4, 3, 16, 40_000, 1800),
     };
-    let set = program_set(k, a, corpus);
+    let mut set = pause_programs();
+    set.extend(program_set(k, a, corpus));
     let ctl = RunCtl::new(secs);
     let spec = PairSpec {
         id: ID,
